@@ -10,7 +10,7 @@ import driver as D
 n = int(sys.argv[1]) if len(sys.argv) > 1 else 120
 fl = sys.argv[2] if len(sys.argv) > 2 else "asan"
 D.build([fl])
-profiles = ["hist", "invalid", "copy", "solve", "config", "io", "reader", "lu", "cli", "resolve", "grow"]
+profiles = ["hist", "invalid", "copy", "solve", "config", "io", "reader", "lu", "cli", "resolve", "grow", "bases", "partial"]
 jobs = [(p, s, f) for p in profiles for s in range(1, n + 1) for f in (0, 1)]
 res = {}; lock = threading.Lock(); cur = [0]
 def loop(idx):
